@@ -185,7 +185,7 @@ def mkRng (w : World) (text : String) : Rng := ⟨some text, w.rngOf text, []⟩
 def Rng.seg (r : Rng) : Segment := (r.text, r.calls)
 
 /-- `self.stateful_rng(*args)` -/
-def stateful (c : Cfg) (w : World) (st : State) (args : List String) : Rng := mkRng w (seedText c.seed st.session args)
+def stateful (c : Cfg) (w : World) (sess : Nat) (args : List String) : Rng := mkRng w (seedText c.seed sess args)
 
 /-- Python `dict[k] = v`: a present key keeps its position -/
 def dictSet (d : List (Nat × Nat)) (k v : Nat) : List (Nat × Nat) :=
@@ -202,16 +202,16 @@ def dtcLoop (mask : Nat) : Nat → Rng → List (Nat × Nat) → List (Nat × Na
 
 /-! ### the handlers (`_ambient` is handed to every one of them; none uses it) -/
 
-def ecuReset (c : Cfg) (w : World) (st : State) (pdu : List Nat) (rt : Nat) : Out :=
-  let r := stateful c w st [pyBytesRepr pdu]
+def ecuReset (c : Cfg) (w : World) (sess : Nat) (pdu : List Nat) (rt : Nat) : Option Reply × List Segment :=
+  let r := stateful c w sess [pyBytesRepr pdu]
   if rt == rapidPowerShutDown then
     let (v, r1) := r.draw (.randint 0 255)
-    ⟨some (.ecuReset rt (some v)), st, [r1.seg]⟩
-  else ⟨some (.ecuReset rt none), st, [r.seg]⟩
+    ⟨some (.ecuReset rt (some v)), [r1.seg]⟩
+  else ⟨some (.ecuReset rt none), [r.seg]⟩
 
-def requestSeed (w : World) (st : State) (t : Nat) : Out :=
+def requestSeed (w : World) (t : Nat) : Option Reply × List Segment :=
   let (pl, r) := randomPayload ⟨none, w.fresh, []⟩ 0
-  ⟨some (.saSeed t pl), st, [r.seg]⟩
+  ⟨some (.saSeed t pl), [r.seg]⟩
 
 def sendKey (st : State) (t : Nat) (key : List Nat) : Out :=
   match st.lastSA with
@@ -222,78 +222,83 @@ def sendKey (st : State) (t : Nat) (key : List Nat) : Out :=
       let st1 := { st with lastSA := none }
       if key == sd then ⟨some (.saKey t), st1, []⟩ else ⟨some (.neg sidSecurityAccess nrcInvalidKey), st1, []⟩
 
-def routineControl (c : Cfg) (w : World) (st : State) (pdu : List Nat) (rid sf : Nat) : Out :=
-  let r := stateful c w st [toString sidRoutineControl, toString rid]
+def routineControl (c : Cfg) (w : World) (sess : Nat) (pdu : List Nat) (rid sf : Nat) : Option Reply × List Segment :=
+  let r := stateful c w sess [toString sidRoutineControl, toString rid]
   let (v, r1) := r.draw .random
-  if !randomBool v c.hp.pIdentifier then ⟨some (.neg sidRoutineControl nrcRequestOutOfRange), st, [r1.seg]⟩
+  if !randomBool v c.hp.pIdentifier then ⟨some (.neg sidRoutineControl nrcRequestOutOfRange), [r1.seg]⟩
   else
-    let r2 := mkRng w (addSeed (seedText c.seed st.session [toString sidRoutineControl, toString rid]) (toString sf))
+    let r2 := mkRng w (addSeed (seedText c.seed sess [toString sidRoutineControl, toString rid]) (toString sf))
     let (v2, r3) := r2.draw .random
-    if !randomBool v2 (2 / 3) then ⟨some (.neg sidRoutineControl nrcSubFunctionNotSupported), st, [r1.seg, r3.seg]⟩
+    if !randomBool v2 (2 / 3) then ⟨some (.neg sidRoutineControl nrcSubFunctionNotSupported), [r1.seg, r3.seg]⟩
     else
-      let r4 := stateful c w st [pyBytesRepr pdu]
+      let r4 := stateful c w sess [pyBytesRepr pdu]
       let (v3, r5) := r4.draw .random
       if !randomBool v3 c.hp.pFormat then
-        ⟨some (.neg sidRoutineControl nrcIncorrectFormat), st, [r1.seg, r3.seg, r5.seg]⟩
+        ⟨some (.neg sidRoutineControl nrcIncorrectFormat), [r1.seg, r3.seg, r5.seg]⟩
       else
         let (pl, r6) := randomPayload r5 0
-        ⟨some (.routine sf rid pl), st, [r1.seg, r3.seg, r6.seg]⟩
+        ⟨some (.routine sf rid pl), [r1.seg, r3.seg, r6.seg]⟩
 
-def readDataById (c : Cfg) (w : World) (st : State) (pdu : List Nat) (did : Nat) : Out :=
-  let r := stateful c w st [pyBytesRepr pdu]
+def readDataById (c : Cfg) (w : World) (sess : Nat) (pdu : List Nat) (did : Nat) : Option Reply × List Segment :=
+  let r := stateful c w sess [pyBytesRepr pdu]
   let (v, r1) := r.draw .random
-  if !randomBool v c.hp.pIdentifier then ⟨some (.neg sidRdbi nrcRequestOutOfRange), st, [r1.seg]⟩
+  if !randomBool v c.hp.pIdentifier then ⟨some (.neg sidRdbi nrcRequestOutOfRange), [r1.seg]⟩
   else
     let (pl, r2) := randomPayload r1 1
-    ⟨some (.rdbi did pl), st, [r2.seg]⟩
+    ⟨some (.rdbi did pl), [r2.seg]⟩
 
 /-- shared shape of write_data_by_identifier / input_output_control_by_identifier -/
-def idThenFormat (c : Cfg) (w : World) (st : State) (sid : Nat) (pdu : List Nat) (did : Nat)
-    (pos : Rng → Reply × Rng) : Out :=
-  let r := stateful c w st [toString sid, toString did]
+def idThenFormat (c : Cfg) (w : World) (sess : Nat) (sid : Nat) (pdu : List Nat) (did : Nat)
+    (pos : Rng → Reply × Rng) : Option Reply × List Segment :=
+  let r := stateful c w sess [toString sid, toString did]
   let (v, r1) := r.draw .random
-  if !randomBool v c.hp.pIdentifier then ⟨some (.neg sid nrcRequestOutOfRange), st, [r1.seg]⟩
+  if !randomBool v c.hp.pIdentifier then ⟨some (.neg sid nrcRequestOutOfRange), [r1.seg]⟩
   else
-    let r2 := stateful c w st [pyBytesRepr pdu]
+    let r2 := stateful c w sess [pyBytesRepr pdu]
     let (v2, r3) := r2.draw .random
-    if !randomBool v2 c.hp.pFormat then ⟨some (.neg sid nrcIncorrectFormat), st, [r1.seg, r3.seg]⟩
+    if !randomBool v2 c.hp.pFormat then ⟨some (.neg sid nrcIncorrectFormat), [r1.seg, r3.seg]⟩
     else
       let (rep, r4) := pos r3
-      ⟨some rep, st, [r1.seg, r4.seg]⟩
+      ⟨some rep, [r1.seg, r4.seg]⟩
 
-def writeDataById (c : Cfg) (w : World) (st : State) (pdu : List Nat) (did : Nat) : Out :=
-  idThenFormat c w st sidWdbi pdu did (fun r => (.wdbi did, r))
+def writeDataById (c : Cfg) (w : World) (sess : Nat) (pdu : List Nat) (did : Nat) : Option Reply × List Segment :=
+  idThenFormat c w sess sidWdbi pdu did (fun r => (.wdbi did, r))
 
-def ioControl (c : Cfg) (w : World) (st : State) (pdu : List Nat) (did : Nat) : Out :=
-  idThenFormat c w st sidIoctl pdu did (fun r => let (pl, r1) := randomPayload r 1; (.ioctl did pl, r1))
+def ioControl (c : Cfg) (w : World) (sess : Nat) (pdu : List Nat) (did : Nat) : Option Reply × List Segment :=
+  idThenFormat c w sess sidIoctl pdu did (fun r => let (pl, r1) := randomPayload r 1; (.ioctl did pl, r1))
 
-def clearDTC (c : Cfg) (w : World) (st : State) (group : Nat) : Out :=
-  let r := stateful c w st [toString sidClearDTC, toString group]
+def clearDTC (c : Cfg) (w : World) (sess : Nat) (group : Nat) : Option Reply × List Segment :=
+  let r := stateful c w sess [toString sidClearDTC, toString group]
   let (v, r1) := r.draw .random
-  if !randomBool v c.hp.pDtcMask then ⟨some (.neg sidClearDTC nrcRequestOutOfRange), st, [r1.seg]⟩
-  else ⟨some .clearDTC, st, [r1.seg]⟩
+  if !randomBool v c.hp.pDtcMask then ⟨some (.neg sidClearDTC nrcRequestOutOfRange), [r1.seg]⟩
+  else ⟨some .clearDTC, [r1.seg]⟩
 
-def reportDTCByStatusMask (c : Cfg) (w : World) (st : State) (mask : Nat) : Out :=
-  let r0 := stateful c w st []
+def reportDTCByStatusMask (c : Cfg) (w : World) (sess : Nat) (mask : Nat) : Option Reply × List Segment :=
+  let r0 := stateful c w sess []
   let (avail, r0a) := r0.draw (.randint 0 255)
-  let r := stateful c w st [toString sidReadDTC, toString mask]
+  let r := stateful c w sess [toString sidReadDTC, toString mask]
   let (e, r1) := r.draw (.expo 50)
   let (recs, r2) := dtcLoop avail (expoLen e) r1 []
-  ⟨some (.dtcs avail recs), st, [r0a.seg, r2.seg]⟩
+  ⟨some (.dtcs avail recs), [r0a.seg, r2.seg]⟩
+
+/-- the handlers that do not touch the state: they see the session (through `stateful_rng`) and the request -/
+def handler (c : Cfg) (w : World) (sess : Nat) : Request → Option Reply × List Segment
+  | .ecuReset pdu rt => ecuReset c w sess pdu rt
+  | .requestSeed t => requestSeed w t
+  | .sendKey _ _ => (none, [])
+  | .routineControl pdu rid sf => routineControl c w sess pdu rid sf
+  | .readDataById pdu did => readDataById c w sess pdu did
+  | .writeDataById pdu did => writeDataById c w sess pdu did
+  | .ioControl pdu did => ioControl c w sess pdu did
+  | .clearDTC g => clearDTC c w sess g
+  | .reportDTCByStatusMask m => reportDTCByStatusMask c w sess m
+  | .readDTCOther => (some (.neg sidReadDTC nrcSubFunctionNotSupported), [])
+  | .other _ => (none, [])
 
 /-- `RandomUDSServer.respond_after_default` -/
 def respondAfterDefault (c : Cfg) (w : World) (st : State) : Request → Out
-  | .ecuReset pdu rt => ecuReset c w st pdu rt
-  | .requestSeed t => requestSeed w st t
   | .sendKey t key => sendKey st t key
-  | .routineControl pdu rid sf => routineControl c w st pdu rid sf
-  | .readDataById pdu did => readDataById c w st pdu did
-  | .writeDataById pdu did => writeDataById c w st pdu did
-  | .ioControl pdu did => ioControl c w st pdu did
-  | .clearDTC g => clearDTC c w st g
-  | .reportDTCByStatusMask m => reportDTCByStatusMask c w st m
-  | .readDTCOther => ⟨some (.neg sidReadDTC nrcSubFunctionNotSupported), st, []⟩
-  | .other _ => ⟨none, st, []⟩
+  | req => let (r, tr) := handler c w st.session req; ⟨r, st, tr⟩
 
 /-- the names of the handlers, as `respond_after_default` dispatches -/
 def handlerName : Request → String
@@ -309,20 +314,58 @@ def handlerName : Request → String
   | .readDTCOther => "read_dtc_information"
   | .other _ => "-"
 
-/-- what the source of a handler shows about its RNG objects: for every object it creates, the constructor and the
-    argument expressions (`ast.unparse`), then the re-seedings.  Compared with the table regenerated from the AST. -/
+/-! ### what the source shows (compared with the tables regenerated from the AST on every run, `Gen/C16Handlers.lean`)
+
+The model above was written against exactly this code; a handler that creates another RNG object, seeds one from other
+expressions, reads another global name (`random`, `time`, `os`, `id`, `hash`, ...) or another attribute of the server,
+or a changed `stateful_rng` / `RNG` breaks the obligation `handler_rng_sources_agree` (and the harness names the handler). -/
+
+/-- the handlers `respond_after_default` dispatches to -/
+def declaredHandlers : List String := ["ecu_reset", "security_access", "routine_control", "read_data_by_identifier", "write_data_by_identifier", "input_output_control_by_identifier", "clear_diagnostic_information", "read_dtc_information"]
+/-- per handler: every expression that creates or re-seeds an RNG object, in source order -/
 def declaredSources : List (String × List String) := [
   ("ecu_reset", ["self.stateful_rng(request.pdu)"]),
   ("security_access", ["RNG()"]),
-  ("routine_control", ["self.stateful_rng(request.service_id, request.routine_identifier)",
-                       "rng.add_seeds(request.sub_function)", "self.stateful_rng(request.pdu)"]),
+  ("routine_control", ["self.stateful_rng(request.service_id, request.routine_identifier)", "rng.add_seeds(request.sub_function)", "self.stateful_rng(request.pdu)"]),
   ("read_data_by_identifier", ["self.stateful_rng(request.pdu)"]),
-  ("write_data_by_identifier", ["self.stateful_rng(request.service_id, request.data_identifier)",
-                                "self.stateful_rng(request.pdu)"]),
-  ("input_output_control_by_identifier", ["self.stateful_rng(request.service_id, request.data_identifier)",
-                                          "self.stateful_rng(request.pdu)"]),
+  ("write_data_by_identifier", ["self.stateful_rng(request.service_id, request.data_identifier)", "self.stateful_rng(request.pdu)"]),
+  ("input_output_control_by_identifier", ["self.stateful_rng(request.service_id, request.data_identifier)", "self.stateful_rng(request.pdu)"]),
   ("clear_diagnostic_information", ["self.stateful_rng(request.service_id, request.group_of_dtc)"]),
   ("read_dtc_information", ["self.stateful_rng()", "self.stateful_rng(request.service_id, request.dtc_status_mask)"])]
+/-- per handler: every global name / attribute of `self` it reads -/
+def declaredFreeNames : List (String × List String) := [
+  ("ecu_reset", ["EcuResetSubFuncs", "self.stateful_rng", "service"]),
+  ("security_access", ["AssertionError", "RNG", "UDSErrorCodes", "isinstance", "self.state", "service"]),
+  ("routine_control", ["UDSErrorCodes", "self.randomness_parameters", "self.stateful_rng", "service"]),
+  ("read_data_by_identifier", ["UDSErrorCodes", "self.randomness_parameters", "self.stateful_rng", "service"]),
+  ("write_data_by_identifier", ["UDSErrorCodes", "self.randomness_parameters", "self.stateful_rng", "service"]),
+  ("input_output_control_by_identifier", ["UDSErrorCodes", "self.randomness_parameters", "self.stateful_rng", "service"]),
+  ("clear_diagnostic_information", ["UDSErrorCodes", "self.randomness_parameters", "self.stateful_rng", "service"]),
+  ("read_dtc_information", ["UDSErrorCodes", "UDSIsoServices", "int", "isinstance", "range", "self.stateful_rng", "service"])]
+/-- per handler: the methods called on its RNG objects, in source order -/
+def declaredDrawCalls : List (String × List String) := [
+  ("ecu_reset", ["randint"]),
+  ("security_access", ["random_payload"]),
+  ("routine_control", ["random_bool", "random_bool", "random_bool", "random_payload"]),
+  ("read_data_by_identifier", ["random_bool", "random_payload"]),
+  ("write_data_by_identifier", ["random_bool", "random_bool"]),
+  ("input_output_control_by_identifier", ["random_bool", "random_bool", "random_payload"]),
+  ("clear_diagnostic_information", ["random_bool"]),
+  ("read_dtc_information", ["randint", "expovariate", "randint", "randint"])]
+/-- the seeding code itself -/
+def declaredTexts : List (String × String) := [
+  ("stateful_rng", "def stateful_rng(self, *args: Any) -> RNG: return RNG(str(self.seed) + '|' + str(self.state.session) + '|'.join((str(arg) for arg in args)))"),
+  ("RNG.__init__", "def __init__(self, *args: Any): super().__init__() self.seeds: list[Any] = [] self.set_seeds(*args)"),
+  ("RNG.set_seeds", "def set_seeds(self, *args: Any) -> None: self.seeds = list(args) if len(self.seeds) == 0: self.seed() else: self.seed('|'.join((str(seed) for seed in self.seeds)))"),
+  ("RNG.add_seeds", "def add_seeds(self, *args: Any) -> None: self.set_seeds(*self.seeds, *args)"),
+  ("RNG.random_bool", "def random_bool(self, p_true: float) -> bool: return self.random() <= p_true"),
+  ("RNG.random_payload", "def random_payload(self, min_len: int=0, max_len: int | None=None) -> bytes: byte_length = max(min_len, int(self.expovariate(1 / 8) + 0.5)) if max_len is not None: byte_length = min(max_len, byte_length) return bytes((self.randint(0, 255) for _ in range(byte_length)))"),
+  ("RNG.bases", "random.Random"),
+  ("RNG.members", "__init__,add_seeds,random_bool,random_payload,set_seeds")]
+def declaredSids : List Nat :=
+  [sidEcuReset, sidSecurityAccess, sidRoutineControl, sidRdbi, sidWdbi, sidIoctl, sidClearDTC, sidReadDTC]
+def declaredNrcs : List Nat :=
+  [nrcRequestOutOfRange, nrcSubFunctionNotSupported, nrcIncorrectFormat, nrcRequestSequenceError, nrcInvalidKey, nrcGeneralReject]
 
 /-! ### one request, a history -/
 
